@@ -18,6 +18,9 @@ type graphOpts struct {
 	Extras   bool // quote / unresolved / external / overload options
 	DistMenu bool
 	Overload bool // the last node always shares the full name of node 0 (a second overload)
+	// defaults of the choice tree (the zero-deviation model): distribution and a cycle m0 -> m1 -> ... -> m0
+	DefaultDist  int
+	DefaultCycle bool
 }
 
 type genGraph struct {
@@ -31,7 +34,7 @@ func buildGraph(c *engine.C, o graphOpts) genGraph {
 	n := o.N
 	dist := 0
 	if o.DistMenu {
-		dist = c.Choose(4, "dist")
+		dist = (c.Choose(4, "dist") + o.DefaultDist) % 4
 		if dist == 3 {
 			c.Tag("default-package")
 		}
@@ -76,6 +79,9 @@ func buildGraph(c *engine.C, o graphOpts) genGraph {
 	for i := 0; i < n; i++ {
 		for j := 0; j < n; j++ {
 			mult := c.Choose(o.MaxMult+1, fmt.Sprintf("e%d%d", i, j))
+			if o.DefaultCycle && j == (i+1)%n {
+				mult = (mult + 1) % (o.MaxMult + 1)
+			}
 			if mult > 1 {
 				c.Tag("parallel-edge")
 			}
